@@ -71,6 +71,22 @@ class ApproximateNMFPredictor(BaseEstimator, RegressorMixin, MultiOutputMixin):
                 res[k] = getattr(self, k)
         return res
 
+    def set_params(self, **params):
+        """
+        Sets any parameter listed by *_get_param_names*,
+        including the ones of :epkg:`sklearn:decomposition:NMF`
+        which were not specified at construction time.
+        """
+        names = self.__class__._get_param_names()
+        for k, v in params.items():
+            if k not in names:
+                raise ValueError(
+                    f"Invalid parameter {k!r} for estimator {self.__class__.__name__}, "
+                    f"valid parameters are {names}."
+                )
+            setattr(self, k, v)
+        return self
+
     def fit(self, X, y=None):
         """
         Trains a :epkg:`sklearn:decomposition:NMF`
